@@ -630,9 +630,10 @@ func WriteSiteNotFound(w http.ResponseWriter, r *http.Request) {
 // WriteTextResponse writes body with code status to w. The body will
 // be interpreted as plain text.
 func WriteTextResponse(w http.ResponseWriter, status int, body string) {
-	// a handler may have announced the length of a body it never wrote
-	// (it returned an error status or panicked instead)
+	// a handler may have announced the length and the coding of a body
+	// it never wrote (it returned an error status or panicked instead)
 	w.Header().Del("Content-Length")
+	w.Header().Del("Content-Encoding")
 	w.Header().Set("Content-Type", "text/plain; charset=utf-8")
 	w.Header().Set("X-Content-Type-Options", "nosniff")
 	w.WriteHeader(status)
